@@ -188,11 +188,28 @@ BasicStep(st, s, i) ==
 RECURSIVE BasicRun(_, _, _)
 BasicRun(steps, i, st) == IF i > Len(steps) THEN st ELSE BasicRun(steps, i + 1, BasicStep(st, steps[i], i))
 
+\* ------------------------------------------------------------------ token exchange at login (Session.onLogin)
+\* "Secrets cannot outlive their validity": a secret that cannot log in (temporary no-login token) or a login that still misses
+\* credentials is answered with a token that expires no later than the presented one, still cannot log in, and does not authenticate
+\* the session; a full login gets a token for the same user that lives at most the configured lifetime.
+CheckExchange(v) ==
+  (IF v.issued /\ ~v.issuedUid THEN {"ExchangeKeepsIdentity"} ELSE {})
+  \cup (IF v.issued /\ (v.nologin \/ v.missing) /\ v.issuedExp > v.presentedExp THEN {"ExchangedTokenNeverOutlivesPresented"} ELSE {})
+  \cup (IF v.issued /\ v.nologin /\ ~v.issuedNoLogin THEN {"NoLoginTokenStaysNoLogin"} ELSE {})
+  \cup (IF (v.nologin \/ v.missing) /\ v.sessionAuthenticated THEN {"RestrictedSecretDoesNotAuthenticate"} ELSE {})
+  \cup (IF v.issued /\ v.issuedExp > v.nowHi + v.expireIn THEN {"IssuedLifetimeWithinConfigured"} ELSE {})
+\* what the code does beyond that (binding): a full login is authenticated and its token renewed to the configured lifetime
+DivExchange(v) ==
+  (IF ~v.issued THEN {"exchange-no-token"} ELSE {})
+  \cup (IF ~v.nologin /\ ~v.missing /\ (~v.sessionAuthenticated \/ v.issuedExp < v.nowLo + v.expireIn - 1) THEN {"exchange-full-login"} ELSE {})
+  \cup (IF v.missing /\ v.code # 300 THEN {"exchange-code"} ELSE {})
+
 \* ------------------------------------------------------------------ dispatch
 Result(v) ==
   CASE v.op = "token"  -> [bad |-> CheckToken(v), div |-> DivToken(v)]
     [] v.op = "httpauth" -> [bad |-> CheckHttp(v), div |-> DivHttp(v)]
     [] v.op = "apikey" -> [bad |-> CheckKey(v), div |-> DivKey(v)]
+    [] v.op = "exchange" -> [bad |-> CheckExchange(v), div |-> DivExchange(v)]
     [] v.op = "code"   -> LET st == CodeRun(v.steps, 1, CodeInit, v.max) IN [bad |-> st.bad, div |-> st.div]
     [] v.op = "basic"  -> LET st == BasicRun(v.steps, 1, BasicInit) IN [bad |-> st.bad, div |-> st.div]
     \* bcrypt reads the first 72 bytes of a password (assumption of the check, observed here)
